@@ -91,9 +91,10 @@ type Line struct {
 	Obs  interface{}     `json:"obs"`
 }
 
-var kinds = []string{"abi", "abiraw", "commit", "key", "name", "parse", "iter"}
+var kinds = []string{"abi", "abiraw", "commit", "key", "name", "parse", "iter", "contract"}
 
-// budget in 50ths: abi 30%, abiraw 22%, commit 4%, key 16%, name 6%, parse 12%, iter 10%
+// budget in 50ths: abi 30%, abiraw 22%, commit 4%, key 16%, name 6%, parse 12%, iter 10%; kind "contract" gets
+// max(6, K*2/100) cases taken out of the abi share (see kindsFor)
 var weights = []int{15, 11, 2, 8, 3, 6, 5}
 
 // pattern spreads the kinds evenly over a period of 50 ids (largest-deficit rule, ties to the lower index).
@@ -112,6 +113,31 @@ func pattern() []int {
 		pat = append(pat, best)
 	}
 	return pat
+}
+
+// kindsFor: the kind of every id 0..n-1.  The pattern assigns the seven basic kinds; then max(6, n*2/100) of the ids of
+// kind "abi" (evenly spread over them) become "contract".
+func kindsFor(n int) []string {
+	pat := pattern()
+	out := make([]string, n)
+	var abiIDs []int
+	for i := 0; i < n; i++ {
+		out[i] = kinds[pat[i%len(pat)]]
+		if out[i] == "abi" {
+			abiIDs = append(abiIDs, i)
+		}
+	}
+	need := n * 2 / 100
+	if need < 6 {
+		need = 6
+	}
+	if need > len(abiIDs) {
+		need = len(abiIDs)
+	}
+	for j := 0; j < need; j++ {
+		out[abiIDs[j*len(abiIDs)/need]] = "contract"
+	}
+	return out
 }
 
 func mustJSON(v interface{}) json.RawMessage {
@@ -155,6 +181,8 @@ func runCase(kind string, raw json.RawMessage) (obs interface{}) {
 		return runParse(raw)
 	case "iter":
 		return runIter(raw)
+	case "contract":
+		return runContract(raw)
 	}
 	bad("unknown kind %q", kind)
 	return nil
@@ -183,9 +211,9 @@ func main() {
 		})
 	} else {
 		root := hlib.NewRand(*seed)
-		pat := pattern()
+		ks := kindsFor(*n)
 		for i := 0; i < *n; i++ {
-			kind := kinds[pat[i%len(pat)]]
+			kind := ks[i]
 			cases = append(cases, inLine{ID: i, Kind: kind, Spec: genSpec(root.Fork(uint64(i)), kind)})
 		}
 	}
